@@ -15,7 +15,7 @@ class Stub:
 
 NULLS = [("default", None), ("none", {"$none": 1}), ("zero", {"$i": "0"}), ("text", "NULL"), ("list", []),
          ("nulldict", {"null": {}}), ("nested", {"a": {"b": [{"$i": "1"}, {"$i": "2"}]}})]
-FMAPS = [{}, {"f": "g"}, {"f": "g", "g": "f"}, {"add": "plus", "null": "nil"}]
+FMAPS = [{}, {"f": "g"}, {"f": "g", "g": "f"}, {"add": "plus", "null": "nil"}, {"f": "g", "g": "add", "add": "f"}]
 
 
 def run_correspondence(ctx, n):
@@ -47,7 +47,7 @@ def run_correspondence(ctx, n):
         null = m.SQL_NULL if nname == "default" else C.uncanon(nval)
         calls = m.normal_op if mode == "normal" else m.simple_op
         try:
-            out = m._parse(Stub(GR.to_python(raw, Call, SQL_NULL)), "x", null, calls, fmap)
+            out = m._parse(Stub(GR.to_python(raw, Call, SQL_NULL, {})), "x", null, calls, fmap)
             real = {"ok": C.canon(out)}
         except Exception as e:
             real = {"$err": type(e).__name__}
